@@ -1142,5 +1142,6 @@ func main() {
 	if oracleDisagree > int(r.Evals.Load())/20 {
 		r.HarnessError("the engines disagree among themselves on %d calls: no usable oracle", oracleDisagree)
 	}
+	os.RemoveAll(work) // Finish exits the process: deferred calls do not run
 	r.Finish()
 }
